@@ -146,6 +146,25 @@ def ill_case(draw, mode):
     S = draw(gen.structure(mode, cap=6, kinds=('leaf', 'leaf', 'stokes', 'tuple')))
     from .c02 import perturb
 
+    if kind == 'row' and draw(st.integers(0, 2)) == 0:
+        # same container, same block classes, same static fields, same INPUT structures: only the number of rows of one
+        # dense block differs. The well-formed twin (all blocks with m rows) is constructed first, in the same process.
+        n, m = draw(st.integers(1, 3)), draw(st.integers(1, 3))
+        m_bad = draw(st.sampled_from([v for v in (1, 2, 3, 4) if v != m]))
+        Sn = St.leaf([n], 'float32')
+
+        def dense(rows):
+            vals = [[float(draw(st.integers(-3, 3))) for _ in range(n)] for _ in range(rows)]
+            return {'k': 'dense', 'in': Sn, 'blocks': {'shared': vals}, 'subscripts': '...ij,...j->...i', 'vdtype': 'float32'}
+        good = [dense(m) for _ in range(k)]
+        bad = draw(st.integers(0, k - 1))
+        blocks = list(good)
+        blocks[bad] = dense(m_bad)
+        cont = draw(st.sampled_from(['list', 'tuple', 'dict']))
+        mk = (lambda bl: {'c': 'dict', 'items': [[key, b] for key, b in zip(['a', 'b', 'c'], bl)]}) if cont == 'dict' else \
+            (lambda bl: {'c': cont, 'items': list(bl)})
+        return {'mode': 'ill', 'defs': G.defs, 'kind': kind, 'blocks': mk(blocks), 'valid_first': mk(good),
+                'what': 'rows-of-one-dense-block', 'bad': bad}
     S2, what = perturb(draw, S, mode)
     blocks = [gen.leaf_operand(draw, G, S, square=True) for _ in range(k)]
     bad = draw(st.integers(0, k - 1))
@@ -172,6 +191,8 @@ def check(recipe, mode):
     cls_of = {'row': BlockRowOperator, 'col': BlockColumnOperator, 'diag': BlockDiagonalOperator}
     if recipe['mode'] == 'ill':
         b = ops.Builder(defs)
+        if recipe.get('valid_first'):
+            must_not_raise('well-formed-twin', cls_of[recipe['kind']], b._container(recipe['valid_first']))
         cont = must_not_raise('build-blocks', b._container, recipe['blocks'])
         name = must_raise(f'ill-formed-{recipe["kind"]}', cls_of[recipe['kind']], cont, exc=(ValueError,))
         return {'nontrivial': True, 'classes': ['ill:' + recipe['kind'], 'ill-diff:' + recipe['what']]}
@@ -186,13 +207,14 @@ def check(recipe, mode):
         X.check_structures(op, den, 'structure')
         X.compare_with_den(op, den, recipe['probe'], 'value')
         eps = X.eps_of(den)
+        host = _host_input(op, den, recipe['probe'], eps)
         M = np.asarray(must_not_raise('as_matrix', op.as_matrix), dtype=np.float64)
         from .c04 import _cmp_matrix
 
         _cmp_matrix(M, den, eps, 'as_matrix')
         # transpose: class and value
         kinds = X.kinds_in(expr, defs)
-        classes = ['single:' + expr['kind']]
+        classes = ['single:' + expr['kind']] + host
         if 'cg' not in den.flags:
             T = must_not_raise('transpose', lambda: op.T)
             want_cls = {'row': BlockColumnOperator, 'col': BlockRowOperator, 'diag': BlockDiagonalOperator}[expr['kind']]
@@ -264,6 +286,38 @@ def check(recipe, mode):
             raise Violation('product-not-simplified:' + recipe['rule'],
                             f'{recipe["rule"]} with equal layouts reduced to {type(red).__name__}')
     return {'nontrivial': True, 'classes': classes + ['rule:' + k for k in fired]}
+
+
+def _host_input(op, den, probe, eps):
+    """Host (NumPy) input leaves, one array object standing for every leaf it fits; applied twice. Whether host arrays
+    are accepted at all is not judged (some operators need jax arrays); when they are, both results are M x."""
+    import jax
+
+    n = den.M.shape[1]
+    xf = np.array([((probe[i % 8] * 3 + 7 * i) % 7) - 3 for i in range(n)], dtype=float)
+    leaves, treedef = jax.tree.flatten(St.value_from_flat(den.in_S, xf))
+    share = probe[2] % 2 == 0
+    cache, host = {}, []
+    for l in leaves:
+        k_ = (tuple(l.shape), str(l.dtype))
+        if not (share and k_ in cache):
+            cache[k_] = np.array(l)
+        host.append(cache[k_] if share else np.array(l))
+    x = jax.tree.unflatten(treedef, host)
+    flat = np.concatenate([a.reshape(-1) for a in host]).astype(np.float64) if host else np.zeros(0)
+    want = den.M @ flat
+    tol = 2 * ops.tolerance(den, np.abs(flat), eps)
+    for rep in (1, 2):
+        try:
+            y = op.mv(x)
+        except Exception:  # noqa: BLE001
+            return ['host_input_not_accepted']
+        got = St.flat_of_value(y)
+        if got.shape != want.shape or (np.abs(got - want) > tol).any():
+            i = int(np.argmax(np.abs(got - want) - tol)) if got.shape == want.shape else 0
+            raise Violation('host-input-value', f'application #{rep} to NumPy input leaves{" (one array object used for several leaves)" if share and len(cache) < len(host) else ""}: '
+                                                f'element {i}: got {got[i] if got.shape == want.shape else got.shape} want {want[i] if got.shape == want.shape else want.shape}')
+    return ['host_input'] + (['host_input_shared_leaf_object'] if share and len(cache) < len(host) else [])
 
 
 def _invertible_kind(b, defs):
